@@ -10,7 +10,7 @@ cp evidence/$id.json work/ev-$id.bak 2>/dev/null
 ./vcheck $id --tier $tier > work/seedrun-$id.log 2>&1; rc=$?
 git -C "$VERIF_REPO" reset -q; git -C "$VERIF_REPO" checkout -q -- .
 cp work/ev-$id.bak evidence/$id.json 2>/dev/null
-grep -E "^(VIOLATION|KNOWN|INFRA|$id )" work/seedrun-$id.log | cut -c1-300
-grep -A3 "^VIOLATION" work/seedrun-$id.log | grep -E "signature|observed|disagrees|pattern" | cut -c1-400 | head -12
+grep -a -E "^(VIOLATION|KNOWN|INFRA|$id )" work/seedrun-$id.log | cut -c1-300
+grep -a -A3 "^VIOLATION" work/seedrun-$id.log | grep -a -E "signature|observed|disagrees|pattern" | cut -c1-400 | head -12
 rm -rf replays/$id
 echo "exit=$rc"
